@@ -2,7 +2,7 @@
 import json
 import os
 
-from vlib import Infra, read_ndjson
+from vlib import Infra, Crash, read_ndjson
 
 RADIX_CFG = """SPECIFICATION Spec
 CONSTANTS
@@ -42,12 +42,22 @@ def check(c):
     c.parallel(thunks, max_workers=3)
 
     # ---- G: replay all of them through the real middleware
+    def gen(u, cs, sm):
+        try:
+            c.run_driver(["c01gen", "-universe", u, "-cases", cs, "-out", sm], timeout=3000)
+        except Crash as e:
+            # verdict mismatches recorded before the process died are real observations
+            part = [json.loads(l) for l in open(sm + ".partial")] if os.path.exists(sm + ".partial") else []
+            if not part:
+                raise
+            c.drift.append("the driver later died inside the code under test (C17's business): %s" % str(e)[:300])
+            return {"mismatches": part, "evaluations": len(part), "nontrivial": 0, "rejected": 0, "elems_drift": 0, "cases": len(part), "samples": []}
+        return json.load(open(sm))
+
     summ = c.path("c01gen.json")
-    c.run_driver(["c01gen", "-universe", uni, "-cases", cases, "-out", summ], timeout=3000)
-    s = json.load(open(summ))
+    s = gen(uni, cases, summ)
     summ2 = c.path("c01gen_small.json")
-    c.run_driver(["c01gen", "-universe", uni2, "-cases", cases2, "-out", summ2], timeout=3000)
-    s2 = json.load(open(summ2))
+    s2 = gen(uni2, cases2, summ2)
     s["mismatches"] = (s["mismatches"] or []) + (s2["mismatches"] or [])
     for f in ("evaluations", "nontrivial", "rejected", "elems_drift", "cases"):
         s[f] += s2[f]
